@@ -21,8 +21,8 @@ BUDGET = {'quick': 6000, 'thorough': 160000}
 
 PROFILE = {
     'weights': {'app': 14, 'idg': 5, 'rmidg': 2, 'bl': 3, 'down': 3,
-                'rmsrv': 2, 'orphanbl': 3},
-    'force': ['idg', 'orphanbl'],
+                'rmsrv': 2, 'orphanbl': 3, 'orphanrm': 3},
+    'force': ['idg', 'orphanbl', 'orphanrm'],
     'groups': True,
     'group_bias': True,
 }
